@@ -806,5 +806,126 @@ theorem small_cfgW : SmallSketch cfgW :=
 
 end Ex
 
+/-! ### the hash stored in a node is the hash of its key -/
+
+/-- Every node of the probation list stores the hash of its key (as `insert` computed it). -/
+def HashOk (p : Params) (s : UState) : Prop := ∀ n ∈ s.prob, n.hash = p.hash n.key
+
+/-- Every node of `l'` agrees in key and hash with some node of `l`. -/
+def ProbFrom (l l' : List AoNode) : Prop := ∀ n' ∈ l', ∃ n ∈ l, n'.key = n.key ∧ n'.hash = n.hash
+
+theorem ProbFrom.refl (l : List AoNode) : ProbFrom l l := fun n hn => ⟨n, hn, rfl, rfl⟩
+
+theorem ProbFrom.of_sub {l l' : List AoNode} (h : ∀ n ∈ l', n ∈ l) : ProbFrom l l' :=
+  fun n hn => ⟨n, h n hn, rfl, rfl⟩
+
+theorem ProbFrom.trans {a b c : List AoNode} (h1 : ProbFrom a b) (h2 : ProbFrom b c) :
+    ProbFrom a c := by
+  intro n hn
+  obtain ⟨m, hm, e1, e2⟩ := h2 n hn
+  obtain ⟨m', hm', e3, e4⟩ := h1 m hm
+  exact ⟨m', hm', e1.trans e3, e2.trans e4⟩
+
+theorem HashOk.of_probFrom {p : Params} {s s' : UState} (h : HashOk p s)
+    (hf : ProbFrom s.prob s'.prob) : HashOk p s' := by
+  intro n hn
+  obtain ⟨m, hm, e1, e2⟩ := hf n hn
+  rw [e2, e1]; exact h m hm
+
+theorem probFrom_setTsAo (l : List AoNode) (id t : Nat) : ProbFrom l (setTsAo l id t) := by
+  induction l with
+  | nil => intro n hn; simp [setTsAo] at hn
+  | cons a l ih =>
+    intro n hn
+    simp only [setTsAo] at hn
+    by_cases ha : a.id = id
+    · simp only [ha, if_true, List.mem_cons] at hn
+      rcases hn with hn | hn
+      · subst hn; exact ⟨a, List.mem_cons_self, rfl, rfl⟩
+      · exact ⟨n, List.mem_cons_of_mem _ hn, rfl, rfl⟩
+    · simp only [ha, if_false, List.mem_cons] at hn
+      rcases hn with hn | hn
+      · subst hn; exact ⟨n, List.mem_cons_self, rfl, rfl⟩
+      · obtain ⟨m, hm, e⟩ := ih n hn
+        exact ⟨m, List.mem_cons_of_mem _ hm, e⟩
+
+theorem mem_moveToBackAo {l : List AoNode} {id : Nat} {n : AoNode} (h : n ∈ moveToBackAo l id) :
+    n ∈ l := by
+  unfold moveToBackAo at h
+  cases hf : findAo l id with
+  | none => simpa [hf] using h
+  | some m =>
+    simp only [hf, List.mem_append, List.mem_singleton] at h
+    rcases h with h | h
+    · exact mem_eraseAo h
+    · subst h; exact (findAo_some hf).1
+
+theorem probFrom_touchAo (s : UState) (id : Nat) (ts : Option Nat) :
+    ProbFrom s.prob (touchAo s id ts).prob := by
+  cases ts with
+  | none => exact ProbFrom.of_sub (fun n hn => mem_moveToBackAo hn)
+  | some t =>
+    exact (probFrom_setTsAo s.prob id t).trans (ProbFrom.of_sub (fun n hn => mem_moveToBackAo hn))
+
+theorem evictLru_probSub {p : Params} {s : UState} (hs : Struct p s) :
+    ∀ n ∈ (evictLru p s).prob, n ∈ s.prob := by
+  have hl := evictLruLoop_spec (p := p) EVICTION_BATCH_SIZE s (weightsToEvict p s) 0 0 hs
+  unfold evictLru
+  generalize evictLruLoop EVICTION_BATCH_SIZE s (weightsToEvict p s) 0 0 = r at hl
+  obtain ⟨s1, c, w⟩ := r
+  intro n hn
+  simp only [subEc_prob] at hn
+  exact hl.probSub n hn
+
+theorem evictExpired_probSub {p : Params} (hq : NoQuirks p) {s : UState} (hi : InvU p s) :
+    ∀ n ∈ (evictExpired p s).prob, n ∈ s.prob := by
+  unfold evictExpired
+  have h1 : ∃ s1, (if p.ttl.isSome = true then
+        (let (s1, c, w) := removeExpiredWo p EVICTION_BATCH_SIZE s 0 0
+         let s2 := subEc s1 c
+         { s2 with ws := s2.ws - w })
+      else s) = s1 ∧ InvU p s1 ∧ ∀ n ∈ s1.prob, n ∈ s.prob := by
+    by_cases ht : p.ttl.isSome = true
+    · simp only [ht, if_true]
+      have hl := removeExpiredWo_spec hq EVICTION_BATCH_SIZE s 0 0 hi.struct
+      generalize hr : removeExpiredWo p EVICTION_BATCH_SIZE s 0 0 = r at hl
+      obtain ⟨s1, c, w⟩ := r
+      have := settle hi hl
+      refine ⟨_, rfl, this.1, ?_⟩
+      intro n hn
+      simp only [subEc_prob] at hn
+      exact hl.probSub n hn
+    · simp only [ht]
+      exact ⟨s, rfl, hi, fun n hn => hn⟩
+  obtain ⟨s1, he1, hi1, hsub1⟩ := h1
+  simp only at he1
+  rw [he1]
+  by_cases ht : p.tti.isSome = true
+  · simp only [ht, if_true]
+    have hl := removeExpiredAo_spec (p := p) EVICTION_BATCH_SIZE s1 0 0 hi1.struct
+    generalize hr : removeExpiredAo p EVICTION_BATCH_SIZE s1 0 0 = r at hl
+    obtain ⟨s2, c, w⟩ := r
+    intro n hn
+    simp only [subEc_prob] at hn
+    exact hsub1 n (hl.probSub n hn)
+  · simp only [ht]
+    exact hsub1
+
+theorem maintain_probSub {p : Params} (hq : NoQuirks p) {s : UState} (hi : InvU p s) :
+    ∀ n ∈ (maintain p s).prob, n ∈ s.prob := by
+  unfold maintain evictExpiredIfNeeded
+  by_cases hx : p.hasExpiry = true
+  · simp only [hx, if_true]
+    obtain ⟨h1, _, _⟩ := evictExpired_spec hq hi
+    intro n hn
+    exact evictExpired_probSub hq hi n (evictLru_probSub h1.struct n hn)
+  · simp only [hx]
+    exact evictLru_probSub hi.struct
+
+theorem HashOk.maintain {p : Params} (hq : NoQuirks p) {s : UState} (hi : InvU p s)
+    (hh : HashOk p s) : HashOk p (maintain p s) :=
+  fun n hn => hh n (maintain_probSub hq hi n hn)
+
+
 end Unsync
 end MiniMoka
